@@ -28,7 +28,7 @@ package vm
 //verif:obligation fn=VerifC08Op args=147,148,1,0,4 loops=1500 secs=3000
 //verif:obligation fn=VerifC08Op args=147,148,2,0,4 loops=1500 secs=3000 validate=16
 //verif:obligation fn=VerifC08Op args=149,151,1,0,2;149,151,2,0,1 loops=1500 secs=3000
-//verif:obligation fn=VerifC08Op args=152,153,1,0,2;153,153,2,0,2 loops=1500 secs=3000
+//verif:obligation fn=VerifC08Op args=152,153,1,0,2;153,153,2,0,2;153,153,2,9,9 loops=1500 secs=3000
 //verif:obligation fn=VerifC08Op args=154,165,1,0,2;154,165,2,0,2;165,165,3,0,2 loops=1500 secs=3000
 //verif:obligation fn=VerifC08Op args=166,172,0,0,3;166,172,1,0,3;166,172,3,0,3 loops=1500 secs=3000
 //verif:obligation fn=VerifC08Op args=194,205,0,0,3 loops=1500 secs=3000 validate=12
